@@ -505,6 +505,8 @@ _MUTATING = {"append", "extend", "insert", "pop", "remove", "clear", "sort", "re
 
 
 def value_getattr(ip, obj, name):
+  if name == "__class__" and (obj is None or isinstance(obj, (bool, int, float, str, list, dict, tuple, set))):
+    return ExtClass(type(obj).__name__)
   if isinstance(obj, (list, dict, set, tuple, str, frozenset)):
     if hasattr(obj, name):
       return I._PyMethod(obj, name)
@@ -738,7 +740,8 @@ for _n in ("logging.debug", "logging.info", "logging.warning", "logging.warn", "
            "logging.fatal", "logging.log", "logging.vlog", "warnings.warn", "tf.print",
            "logging.set_verbosity", "tqdm.tqdm"):
   TABLE[_n] = Builtin(_n, lambda ip, *a, **k: None)
-TABLE["logging.fatal"] = Builtin("logging.fatal", lambda ip, *a, **k: (_ for _ in ()).throw(PyRaise("SystemExit", ("logging.fatal",))))
+# absl logging.fatal only aborts when the absl handler is installed (absl.app.run); in library use it logs
+# CRITICAL and returns (observed natively on the pinned environment), so it is a no-op like the other loggers.
 const("abc.ABC", ExtClass("abc.ABC", check=lambda v: False))
 const("abc.ABCMeta", ExtClass("abc.ABCMeta", check=lambda v: False))
 TABLE["abc.abstractmethod"] = Builtin("abstractmethod", lambda ip, f: f)
@@ -792,6 +795,17 @@ const("tf.int32", "int32")
 const("tf.int64", "int64")
 const("tf.bool", "bool")
 const("np.uint8", "uint8")
+
+
+@model("collections.OrderedDict")
+def _ordered_dict(ip, *a, **k):
+  return dict(*a, **k)
+
+
+@model("networkx.topological_sort")
+def _nx_topo(ip, graph):
+  # contract of networkx (K): nodes in an order compatible with the edges; the stub graph knows it
+  return ip.call(ip.getattr(graph, "topological_order"), [], {})
 
 
 @model("copy.deepcopy")
@@ -854,7 +868,9 @@ def _sym_log2(ip, x):
       if ip.branch(e > 0):
         pass
       else:
-        raise Unsupported("log of a non-positive number (-inf/nan semantics not modelled)")
+        # numpy: log2(0) = -inf, log2(negative) = nan (math.log2 raises ValueError); both make a later
+        # int() raise.  The non-finite result is represented by -inf on this path.
+        return float("-inf")
   g = None
   if grad0(x) is not None:
     g = grad0(x) / (e * LN2)
@@ -937,10 +953,21 @@ def _np_prod(ip, v, *a, **k):
   return acc
 
 
+@model("np.zeros")
+def _np_zeros(ip, shape, *a, **k):
+  if isinstance(shape, (tuple, list)) and len(shape) == 1 and isinstance(shape[0], int):
+    return NDList([0.0] * shape[0])
+  if isinstance(shape, int):
+    return NDList([0.0] * shape)
+  raise Unsupported("np.zeros of shape %r" % (shape,))
+
+
 @model("np.sum")
 def _np_sum(ip, v, *a, **k):
   if isinstance(v, Term):
     return Term("np.sum", (v,), k)
+  if isinstance(v, Obj) and ip.hasattr(v, "sum"):
+    return ip.call(ip.getattr(v, "sum"), [], {})
   return _sum(ip, v)
 
 
